@@ -18,7 +18,7 @@ theorem C03_tokens (hW : World P cfg env G inp) {n cr p' forest evs o s'}
     (hfind : P.find n = some cr) (hev : Eval G cfg.rho inp (.name n) 0 (.ok p' forest) evs)
     (hrun : Exec P cfg inp cr 0 St.init Frame.empty (o, s')) :
     s'.tree.take s'.ti = postorderL forest ∧ s'.ti = (postorderL forest).length := by
-  have h := R_rule_all hW hfind hev rfl (Nat.zero_le _) (by simp [St.init]) (by simp [St.init]) hrun
+  have h := R_rule_all hW hfind hev rfl (Nat.zero_le _) (by simp [St.init]) memoOK_init hrun
   obtain ⟨_, _, h2, h3, _⟩ := h
   simp [St.init] at h2 h3
   exact ⟨h3, h2⟩
@@ -27,7 +27,8 @@ theorem C03_tokens (hW : World P cfg env G inp) {n cr p' forest evs o s'}
     the live prefix of its caller untouched, whatever it wrote beyond it. -/
 theorem C03_failed_rule_leaves_no_token (hW : World P cfg env G inp) {n cr p evs s o s'}
     (hfind : P.find n = some cr) (hev : Eval G cfg.rho inp (.name n) p .fail evs)
-    (hpos : s.pos = p) (hple : p ≤ inp.length) (hlen : s.ti ≤ s.tree.length) (hm : s.memo = [])
+    (hpos : s.pos = p) (hple : p ≤ inp.length) (hlen : s.ti ≤ s.tree.length)
+    (hm : MemoOK P G cfg.rho inp s.memo s.maxTok.e)
     (hrun : Exec P cfg inp cr 0 s Frame.empty (o, s')) :
     s'.ti = s.ti ∧ s'.tree.take s.ti = s.tree.take s.ti := by
   have h := R_rule_all hW hfind hev hpos hple hlen hm hrun
